@@ -355,7 +355,7 @@ def case_conc(ctx, desc):
                 return
             if not desc.get('shard') or desc['shard'][0] == 0:
                 if not S.guard(ctx, 'C04', make2, lambda s, st: len(st['agent'].snapshots), dict(desc)):
-                return
+                    return
             S.explore(make2, desc['bound'], ctx, on_exec, max_execs=300000, shard=desc.get('shard'), name=str(desc))
     finally:
         TC.time_ns, FCm.time_ns, ES.time_ns = saved
